@@ -1,11 +1,23 @@
 //! hx-chain <Cxx>: correspondence harness for the properties that are observed
 //! on the real chain service (ckb-chain + ckb-shared + ckb-store).
+mod c01;
 mod c20;
 mod node;
+mod tree;
 
 use hx_common::*;
-use serde_json::json;
+use serde_json::{json, Value};
+use std::collections::BTreeMap;
 use std::fs;
+
+pub struct Summary {
+    pub viol: Vec<Value>,
+    pub evaluations: u64,
+    pub distinct: usize,
+    pub stats: BTreeMap<String, u64>,
+    pub samples: Vec<Value>,
+    pub rule: &'static str,
+}
 
 fn main() {
     let prop = std::env::args().nth(1).expect("usage: hx-chain <Cxx>");
@@ -19,20 +31,26 @@ fn main() {
         }
     }
     let scratch = scratch_dir(&prop);
-    let (o, rule) = match prop.as_str() {
-        "C20" => (
-            c20::run(seed, thorough, &out, &scratch),
-            "stream chain: histories of extensions (with uncles carrying proposals), forks that take over from any depth, truncations and restarts on a real node, windows (2,10),(1,3),(2,4),(3,3),(1,1); after every tip change the snapshot's proposal view is compared with the window recomputed from the stored main chain and with the Coq model. stream table: random insert/remove/finalize sequences on ProposalTable. distinct = distinct histories; every history has >= 3 operations",
-        ),
+    let s: Summary = match prop.as_str() {
+        "C01" => {
+            let r = c01::run(seed, thorough, &out);
+            Summary { viol: r.viol, evaluations: r.evaluations, distinct: r.distinct.len(), stats: r.stats, samples: r.samples,
+                rule: "random block trees (5..26 blocks quick, ..60 thorough; fork bias 10/25/45 %; genesis epoch of 3/4/6/9/1000 blocks so that branches get different difficulties after the first epoch; 0/6/12 % contextually invalid blocks (DAO field, cellbase reward), 0/4 % non-contextually invalid (transactions root)) x delivery schedules (in order, reversed, neighbour swaps, random permutation, early block withheld; 10 % duplicates) delivered asynchronously to a real node; after every delivery the node is observed at quiescence. distinct = distinct (tree, schedule); all have >= 5 blocks" }
+        }
+        "C20" => {
+            let r = c20::run(seed, thorough, &out, &scratch);
+            Summary { viol: r.viol, evaluations: r.evaluations, distinct: r.distinct.len(), stats: r.stats, samples: r.samples,
+                rule: "stream chain: histories of extensions (with uncles carrying proposals), forks that take over from any depth, truncations and restarts on a real node, windows (2,10),(1,3),(2,4),(3,3),(1,1); after every tip change the snapshot's proposal view is compared with the window recomputed from the stored main chain and with the Coq model. stream table: random insert/remove/finalize sequences on ProposalTable. distinct = distinct histories; every history has >= 3 operations" }
+        }
         _ => panic!("unknown property {prop}"),
     };
     let _ = fs::remove_dir_all(&scratch);
     let summary = json!({
         "property": prop, "seed": seed,
-        "evaluations": o.evaluations, "distinct_nontrivial": o.distinct.len(),
-        "rule": rule, "distribution": o.stats, "samples": o.samples,
-        "impl_violations": o.viol,
+        "evaluations": s.evaluations, "distinct_nontrivial": s.distinct,
+        "rule": s.rule, "distribution": s.stats, "samples": s.samples,
+        "impl_violations": s.viol,
     });
     fs::write(out.join("summary.json"), serde_json::to_string_pretty(&summary).unwrap()).unwrap();
-    println!("hx-chain {}: {} evaluations, {} implementation-side violations", prop, o.evaluations, o.viol.len());
+    println!("hx-chain {}: {} evaluations, {} implementation-side violations", prop, s.evaluations, s.viol.len());
 }
